@@ -569,3 +569,121 @@ def check_posit_to_int(ctx, prog, rule, label, path, pty, ibits, signed, full, g
     for k_, v in stats.items():
         ctx.count('rounding_%s' % k_, v)
     return stats
+
+
+# ------------------------------------------------------------------------------------------------ round / floor / ceil / trunc
+
+def directed_cases(B, nk, up, full=True):
+    """cases for rounding a magnitude toward zero (up=False) or away from zero when any fraction bit is set (up=True)"""
+    kept, frac = B[:nk], B[nk:]
+    if not up or not frac:
+        yield {}, list(kept), 'toward-zero'
+        return
+    flits = [b for b in frac if is_lit(b)]
+    variants = []
+    if any(b == 1 for b in frac):
+        variants.append(({}, True, 'frac>0(const)'))
+    else:
+        variants.append(({b[2]: 0 for b in flits}, False, 'frac=0'))
+        idxs = list(range(len(flits)))
+        if not full and len(idxs) > 3:
+            idxs = [0, len(idxs) // 2, len(idxs) - 1]
+        for j in idxs:
+            a = {b[2]: 0 for b in flits[:j]}
+            a[flits[j][2]] = 1
+            variants.append((a, True, 'frac top@%d' % j))
+    for a, inc, name in variants:
+        if not inc:
+            yield a, subst(kept, a), name
+            continue
+        k2 = subst(kept, a)
+        run = []
+        i = nk - 1
+        while i >= 0 and is_lit(k2[i]):
+            run.append(k2[i])
+            i -= 1
+        ts = list(range(len(run) + 1))
+        if not full and len(ts) > 4:
+            ts = [0, 1, len(ts) // 2, len(ts) - 1]
+        for t in ts:
+            a4 = dict(a)
+            for b in run[:t]:
+                a4[b[2]] = 1
+            if t < len(run):
+                a4[run[t][2]] = 0
+            yield a4, sym_inc(subst(kept, a4)), '%s ones=%d' % (name, t)
+
+
+def check_posit_round_fn(ctx, prog, rule, label, path, pty, mode, spec_fn, full=True, seed=1):
+    """mode: 'round' (nearest, ties to even), 'floor', 'ceil', 'trunc'; spec_fn: the exact function on rationals (oracle self-check)"""
+    import collections
+    from rules_routing import regime_cells
+    I = Interp(prog, max_steps=200000)
+    stats = collections.Counter()
+    rng = random.Random(seed)
+    P = pty.posit
+    n = pty.bits
+
+    def mkc(bits, negative):
+        def concrete(asg):
+            u = 0
+            for b in bits:
+                u = (u << 1) | (asg.get(b[2], asg.get('*', 0)) if is_lit(b) else b)
+            if negative:
+                u = (-u) & mask(n)
+            v = P.decode(u)
+            sv = u - (1 << n) if u >> (n - 1) else u
+            return [AAgg(pty.tykey, [AInt.const(n, True, sv)])], '%#x (%s)' % (u, float(v)), P.encode(spec_fn(v)), lambda a: I.run(path, a, {})
+        return concrete
+    for negative in (False, True):
+        for k, e, fl, known in regime_cells(n, pty.es):
+            scale = k * (1 << pty.es) + e
+            lits = [lit(fl - 1 - i) for i in range(fl)]
+            if scale >= 0:
+                B = [1] + lits + [0] * max(0, scale - fl)
+                nk = scale + 1
+            else:
+                B = [0] + [0] * (-scale - 1) + [1] + lits
+                nk = 1
+            if mode == 'round':
+                gen = rounding_cases(B, nk, full)
+            else:
+                up = (mode == 'ceil' and not negative) or (mode == 'floor' and negative)
+                gen = directed_cases(B, nk, up, full)
+            for asg, M, cname in gen:
+                if M is None:
+                    continue
+                M = list(M)
+                while len(M) > 1 and M[0] == 0:
+                    M = M[1:]
+                if all(not is_lit(b) for b in M):
+                    v = instantiate(M, {})
+                    enc = P.encode(Fraction(v)) if v else 0
+                    want = [(enc >> (n - 1 - i)) & 1 for i in range(n)]
+                else:
+                    if not (scale >= 0 and len(M) == scale + 1 and M[0] == 1):
+                        stats['cells'] += 1
+                        stats['unsupported'] += 1
+                        continue
+                    want = ([0] + list(known) + M[1:1 + fl] + [0] * n)[:n]
+                bits = [0] + list(known) + subst(lits, asg)
+                cn = '%s k=%d e=%d %s' % ('-' if negative else '+', k, e, cname)
+                fa = {}
+                u = 0
+                for b in bits:
+                    if is_lit(b):
+                        fa[b[2]] = rng.getrandbits(1)
+                    u = (u << 1) | (fa[b[2]] if is_lit(b) else b)
+                val = P.decode(u)
+                ex = spec_fn(-val if negative else val)
+                assert P.encode(abs(ex)) == instantiate(want, fa) if ex != 0 else instantiate(want, fa) == 0, ('oracle mismatch', label, cn)
+
+                def subs(bits=bits, want=want, negative=negative):
+                    for a2, sub in refine_cells(list(reversed(bits)), want):
+                        b2 = subst(bits, a2)
+                        yield sub, (lambda b2=b2: [posit_input(pty, b2, negative)]), subst(want, a2), mkc(b2, negative)
+                decide(ctx, I, rule, label, cn, path, (lambda bits=bits, negative=negative: [posit_input(pty, bits, negative)]),
+                       {}, negative, want, mkc(bits, negative), stats, subs)
+    for k_, v in stats.items():
+        ctx.count('rounding_%s' % k_, v)
+    return stats
